@@ -43,8 +43,11 @@ import (
 func SetupProxy(conn network.Conn, addr string, proxyURI *protocol.URI, tlsConfig *tls.Config, isTLS bool, dialer network.Dialer) (network.Conn, error) {
 	var err error
 	if bytes.Equal(proxyURI.Scheme(), bytestr.StrHTTPS) {
+		plain := conn
 		conn, err = dialer.AddTLS(conn, tlsConfig)
 		if err != nil {
+			// (the caller gets no connection back, so nobody else can close it)
+			plain.Close()
 			return nil, err
 		}
 	}
@@ -114,8 +117,10 @@ func SetupProxy(conn network.Conn, addr string, proxyURI *protocol.URI, tlsConfi
 	}
 
 	if proxyURI != nil && isTLS {
+		tunnel := conn
 		conn, err = dialer.AddTLS(conn, tlsConfig)
 		if err != nil {
+			tunnel.Close()
 			return nil, err
 		}
 	}
